@@ -76,10 +76,11 @@ def cgls(M, b, x0, maxit, tol):
     return x
 
 
-def rto_steps(tape, liks, L2, x0, maxit, tol, n_steps):
-    """liks: [(sqrt-precision scalar, A, y)], L2: prior square-root precision matrix (zero prior mean)."""
+def rto_steps(tape, liks, L2, x0, maxit, tol, n_steps, prior_mean=None):
+    """liks: [(sqrt-precision scalar, A, y)], L2: prior square-root precision matrix, prior_mean: vector or None (zero)."""
     M = np.vstack([c * A for (c, A, y) in liks] + [L2])
-    b = np.hstack([c * y for (c, A, y) in liks] + [np.zeros(L2.shape[0])])
+    pm = np.zeros(L2.shape[1]) if prior_mean is None else np.asarray(prior_mean, float)
+    b = np.hstack([c * y for (c, A, y) in liks] + [L2 @ pm])
     np.random.set_state(tape)
     x = np.array(x0, float)
     for _ in range(n_steps):
@@ -105,7 +106,11 @@ def reference_draw(rec, data, block, kind, knobs, others, start, tape, n_steps):
     v = lambda k: np.asarray(others[k], float).ravel()
     gmrf = rec.get("xprior", "gauss") == "gmrf"
     bc = rec.get("bc", "zero")
+    xm = float(rec.get("xmean", 0.0)) * np.ones(n)
     if kind == "Conjugate":
+        if block == "s" and shape == "x_s" and data.get("noise_C") is not None:
+            r_ = A @ v("x") - y
+            return gamma_steps(tape, m / 2 + 1.0, 0.5 * float(r_ @ np.linalg.solve(data["noise_C"], r_)) + 0.1, n_steps)
         if block == "s" and shape in ("x_s", "x_d_s", "x_s_w", "x_s_step"):
             return gamma_steps(tape, m / 2 + 1.0, 0.5 * np.sum((A @ v("x") - y) ** 2) + 0.1, n_steps)
         if block == "s" and shape == "x_z_s":
@@ -119,8 +124,8 @@ def reference_draw(rec, data, block, kind, knobs, others, start, tape, n_steps):
             if gmrf:
                 P, rank = gmrf_structure(n, bc)
                 R = gmrf_factor(n, bc)        # (for the Neumann field this carries the sqrt(eps) regularisation, a 1e-8 effect)
-                return gamma_steps(tape, rank / 2 + 1.0, 0.5 * float(np.sum((R @ v("x")) ** 2)) + 0.1, n_steps)
-            return gamma_steps(tape, n / 2 + 1.0, 0.5 * np.sum(v("x") ** 2) + 0.1, n_steps)
+                return gamma_steps(tape, rank / 2 + 1.0, 0.5 * float(np.sum((R @ (v("x") - xm)) ** 2)) + 0.1, n_steps)
+            return gamma_steps(tape, n / 2 + 1.0, 0.5 * np.sum((v("x") - xm) ** 2) + 0.1, n_steps)
         if block == "d" and shape == "x_d_a":
             return gamma_steps(tape, n / 2 + 1.0, 0.5 * np.sum(v("x") ** 2) + g("a"), n_steps)
         if block == "d" and shape == "x_d_reg":
@@ -148,15 +153,25 @@ def reference_draw(rec, data, block, kind, knobs, others, start, tape, n_steps):
             b = np.hstack([c * y, np.zeros(n + 1)])
             x = cgls(M, b + np.random.randn(len(b)), x, maxit, tol)
         return x
+    if kind == "LinearRTO" and block == "m" and shape == "y_x_m":
+        # the "data" of this block is another sampled block: x ~ N(B m, 0.5 I), m ~ N(0, I)
+        maxit, tol = knobs.get("maxit", 10), knobs.get("tol", 1e-6)
+        return rto_steps(tape, [(1 / np.sqrt(0.5), data["Bm"], v("x"))], np.eye(2), start, maxit, tol, n_steps)
     if kind == "LinearRTO" and block == "x":
         maxit, tol = knobs.get("maxit", 10), knobs.get("tol", 1e-6)
         I = np.eye(n)
         if shape in ("x_s", "x_s_w", "x_s_step"):
+            if shape == "x_s" and data.get("noise_C") is not None:
+                return None                   # (the whitening factor of a correlated noise is not unique: no reference)
             L2 = np.sqrt(3.0) * gmrf_factor(n) if (gmrf and shape == "x_s") else I
-            return rto_steps(tape, [(np.sqrt(g("s")), A, y)], L2, start, maxit, tol, n_steps)
+            return rto_steps(tape, [(np.sqrt(g("s")), A, y)], L2, start, maxit, tol, n_steps,
+                             prior_mean=xm if shape == "x_s" else None)
         if shape == "x_d_s":
             L2 = np.sqrt(g("d")) * (gmrf_factor(n, bc) if gmrf else I)
-            return rto_steps(tape, [(np.sqrt(g("s")), A, y)], L2, start, maxit, tol, n_steps)
+            return rto_steps(tape, [(np.sqrt(g("s")), A, y)], L2, start, maxit, tol, n_steps, prior_mean=xm)
+        if shape == "y_x_m":
+            return rto_steps(tape, [(1 / np.sqrt(0.3), A, y)], I / np.sqrt(0.5), start, maxit, tol, n_steps,
+                             prior_mean=data["Bm"] @ v("m"))
         if shape == "x_d_a":
             return rto_steps(tape, [(1 / np.sqrt(0.3), A, y)], np.sqrt(g("d")) * I, start, maxit, tol, n_steps)
         if shape == "x_l1_l2":
